@@ -37,6 +37,8 @@ func Write(w io.Writer, scalerType uint32, tables map[string][]byte) (int64, err
 			tableNames = append(tableNames, name)
 		}
 	}
+	// entries which are not written must not be counted in the directory
+	numTables = len(tableNames)
 
 	// sort the table names in the recommended order
 	sort.Slice(tableNames, func(i, j int) bool {
@@ -122,12 +124,18 @@ func Write(w io.Writer, scalerType uint32, tables map[string][]byte) (int64, err
 
 // clearChecksum zeros the checksum field of the head table.
 func clearChecksum(head []byte) {
+	if len(head) < 12 {
+		return // nil entry (table not written) or not a real head table
+	}
 	binary.BigEndian.PutUint32(head[8:12], 0)
 }
 
 // patchChecksum updates the checksum of the head table.
 // The argument is the checksum of the entire font before patching.
 func patchChecksum(head []byte, checksum uint32) {
+	if len(head) < 12 {
+		return
+	}
 	binary.BigEndian.PutUint32(head[8:12], 0xB1B0AFBA-checksum)
 }
 
